@@ -59,6 +59,13 @@ def gen_case(ctx, stream, idx):
             p.pop("default", None)
     if r.random() < 0.25:
         ir["doc"] = ""
+    if ir["params"] and r.random() < 0.25:
+        # identifiers with a meaning elsewhere in the code base: a name ending in `kwargs` keeps its declared type
+        from collections import OrderedDict
+        k = r.choice(list(ir["params"]))
+        nk = r.choice(("kwargs", "model_kwargs", "n_kwargs", "log_kwargs"))
+        if nk not in ir["params"]:
+            ir["params"] = OrderedDict((nk if kk == k else kk, v) for kk, v in ir["params"].items())
     return ir
 
 
